@@ -487,6 +487,8 @@ func (s *Session) sendMessage(msg storage.Message) {
 	}()
 
 	scanner := bufio.NewScanner(reader)
+	// A line may be as long as the whole message; the default token limit is 64 KiB.
+	scanner.Buffer(nil, int(msg.Size())+1)
 	for scanner.Scan() {
 		line := scanner.Text()
 		// Lines starting with . must be prefixed with another .
@@ -520,6 +522,8 @@ func (s *Session) sendMessageTop(msg storage.Message, lineCount int) {
 	}()
 
 	scanner := bufio.NewScanner(reader)
+	// A line may be as long as the whole message; the default token limit is 64 KiB.
+	scanner.Buffer(nil, int(msg.Size())+1)
 	inBody := false
 	for scanner.Scan() {
 		line := scanner.Text()
